@@ -143,16 +143,16 @@ def _node_attr_val(eng, st, view, name):
     g, n = view.g, view.n
 
     def writer(st2, newv, g=g, n=n, suffix=suffix):
-        _frame_check(eng, st2, g.t, None, 'write-node-attr-' + suffix)
+        _frame_check(eng, st2, g.t, None, 'write-node-attr-' + suffix, ['nh:' + suffix, 'nv:' + suffix])
         st2.heap = st2.heap.set_nattr(g.t, n.t, suffix, newv.t)
     has = st.heap.nhas(g.t, n.t, suffix)
     return has, Val(ty, st.heap.nval(g.t, n.t, suffix), loc=writer)
 
 
-def _frame_check(eng, st, gid, node, what):
+def _frame_check(eng, st, gid, node, what, comps=None):
     if st.writable is None:
         return
-    cond = st.writable(gid)
+    cond = st.writable(gid, comps)
     s = z3.simplify(cond)
     if z3.is_true(s):
         return
@@ -288,7 +288,7 @@ def set_item(eng, st, base, key, value, node):
         if name is None:
             raise Unsupported('node attribute with a non-constant name')
         suffix, ty = _schema_attr(base.g, name)
-        _frame_check(eng, st, base.g.t, node, 'set-node-attr-' + name)
+        _frame_check(eng, st, base.g.t, node, 'set-node-attr-' + name, ['nh:' + suffix, 'nv:' + suffix])
         st.heap = st.heap.set_nattr(base.g.t, base.n.t, suffix, ops.coerce(value, ty).t)
         return None
     if isinstance(base, AttrRec):
@@ -316,7 +316,7 @@ def delete_item(eng, st, base, key, node):
         name = _const_str(key)
         suffix, ty = _schema_attr(base.g, name)
         eng.safety(st, st.heap.nhas(base.g.t, base.n.t, suffix), node, 'del-attr-' + name)
-        _frame_check(eng, st, base.g.t, node, 'del-node-attr-' + name)
+        _frame_check(eng, st, base.g.t, node, 'del-node-attr-' + name, ['nh:' + suffix, 'nv:' + suffix])
         st.heap = st.heap.del_nattr(base.g.t, base.n.t, suffix)
         return
     raise Unsupported('del on %s' % type(base).__name__)
@@ -501,9 +501,9 @@ def apply_contract(eng, st, node, con, allow_raise):
         eng.oblige(st, 'call-pre', goal, node, '%s.requires%d' % (label, j), detail=r)
         st.assume(goal)
     # frame
-    mods = [eng.spec_expr(m, pre, None).t for m in con.modifies]
-    for m in mods:
-        _frame_check(eng, st, m, node, 'callee-%s-modifies' % label)
+    mods = eng.parse_mods(con.modifies, pre, None)
+    for m, cs in mods:
+        _frame_check(eng, st, m, node, 'callee-%s-modifies' % label, cs)
     before_heap = st.heap
     if con.modifies or getattr(con, 'allocates', False):
         eng._havoc_heap(st, mods, before_heap)
@@ -869,7 +869,17 @@ def b_iter(eng, st, node, spec=False, old=None):
     return as_sequence(eng, st, eng.ev(node.args[0], st, spec, old), node)
 
 
+def b_sum(eng, st, node, spec=False, old=None):
+    v = eng.ev(node.args[0], st, spec, old)
+    d = getattr(v, 'values_of', None)
+    if d is not None:
+        from . import speclib
+        return speclib.SPEC_FUNCS['dvsum'].smt(eng, st, d, Val(TInt, ops.dict_len(d)))
+    raise Unsupported('sum over %s' % type(v).__name__)
+
+
 BUILTINS = {
+    'sum': b_sum,
     'len': b_len, 'range': b_range, 'enumerate': b_enumerate, 'zip': b_zip, 'int': b_int, 'float': b_float,
     'str': b_str, 'isinstance': b_isinstance, 'list': b_list, 'max': b_max, 'min': b_min,
     'all': b_all_any('all'), 'any': b_all_any('any'), 'next': b_next, 'iter': b_iter,
@@ -953,7 +963,9 @@ def method_call(eng, st, node, base, name, spec=False, old=None):
             return ops.dict_keys(base)
         if name == 'values':
             keys = ops.dict_keys(base)
-            return SeqView(ops.dict_len(base), lambda i: Val(ty.val, ty.valmap(base.t)[ops.list_arr(keys)[i]]), 'values')
+            sv = SeqView(ops.dict_len(base), lambda i: Val(ty.val, ty.valmap(base.t)[ops.list_arr(keys)[i]]), 'values')
+            sv.values_of = base
+            return sv
         raise Unsupported('dict method %s' % name)
     if isinstance(ty, TOpt):
         eng.safety(st, z3.Not(ty.is_none(base.t)), node, 'method-on-None', spec)
@@ -1155,24 +1167,30 @@ def m_get_node_attributes(eng, st, node, spec=False, old=None):
     return node_attr_dict(eng, st, g, name)
 
 
+_NAD_FUNCS = {}
+
+
 def node_attr_dict(eng, st, g, name):
+    """get_node_attributes as a FUNCTION of the graph's slices of the heap (so that equal heaps give equal dicts)."""
     suffix, ty = _schema_attr(g, name)
     dty = TDict(TInt, ty)
-    d = fresh(dty, 'attrs_' + name)
     heap = st.heap
+    nodes_t, hasn_t, nidx_t = heap.nodes(g.t), heap.get('hasn')[g.t], heap.get('nidx')[g.t]
+    nh_t, nv_t = heap.get('nh:' + suffix)[g.t], heap.get('nv:' + suffix)[g.t]
+    if suffix not in _NAD_FUNCS:
+        _NAD_FUNCS[suffix] = z3.Function('node_attrs_' + suffix.replace('#', '_'), nodes_t.sort(), hasn_t.sort(), nidx_t.sort(),
+                                         nh_t.sort(), nv_t.sort(), dty.sort())
+    d = Val(dty, _NAD_FUNCS[suffix](nodes_t, hasn_t, nidx_t, nh_t, nv_t))
     n = z3.Int(fresh_name('an'))
     a = z3.Int(fresh_name('aa'))
     b = z3.Int(fresh_name('ab'))
     keys = dty.keys(d.t)
     karr, klen = dty.keys_ty.arr(keys), dty.keys_ty.length(keys)
     st.assume(*ops.dict_wf(d))
-    st.assume(z3.ForAll([n], dty.has(d.t)[n] == z3.And(heap.has_node(g.t, n), heap.nhas(g.t, n, suffix)),
-                        patterns=[dty.has(d.t)[n]]),
-              z3.ForAll([n], z3.Implies(dty.has(d.t)[n], dty.valmap(d.t)[n] == heap.nval(g.t, n, suffix)),
-                        patterns=[dty.valmap(d.t)[n]]),
+    st.assume(z3.ForAll([n], dty.has(d.t)[n] == z3.And(hasn_t[n], nh_t[n]), patterns=[dty.has(d.t)[n]]),
+              z3.ForAll([n], z3.Implies(dty.has(d.t)[n], dty.valmap(d.t)[n] == nv_t[n]), patterns=[dty.valmap(d.t)[n]]),
               # keys appear in node order
-              z3.ForAll([a, b], z3.Implies(z3.And(0 <= a, a < b, b < klen),
-                                           heap.node_index(g.t, karr[a]) < heap.node_index(g.t, karr[b])),
+              z3.ForAll([a, b], z3.Implies(z3.And(0 <= a, a < b, b < klen), nidx_t[karr[a]] < nidx_t[karr[b]]),
                         patterns=[z3.MultiPattern(karr[a], karr[b])]))
     return d
 
